@@ -564,6 +564,57 @@ def extract_rename_app_label_fixed(repo):
     raise ExtractError('the reference rewrite of RenameAppLabel.simulate was not found')
 
 
+def extract_copy_cfg(repo):
+    """how the SQLite rebuild turns the registered initial values into SELECT expressions
+    (SQLiteAlterTableSQLResult.to_sql, the loop over `new_initial`):
+    flag_per_item  - the block that tests `if embed_initial:` assigns `embed_initial` itself, unconditionally,
+                     before the test (so the decision is taken anew for every initial value);
+    embed_coalesces - the embed branch wraps the text in coalesce(...) when the column already exists"""
+    tree = ast.parse(_src(repo, 'django_evolution/db/sqlite3.py'))
+    cls = _find_class(tree, 'SQLiteAlterTableSQLResult')
+    fn = _find_func(cls, 'to_sql')
+    loop = None
+    for n in ast.walk(fn):
+        if isinstance(n, ast.For) and 'new_initial' in ast.unparse(n.iter):
+            loop = n
+            break
+    if loop is None:
+        raise ExtractError('SQLiteAlterTableSQLResult.to_sql has no loop over new_initial')
+
+    def blocks(node):
+        for f in ('body', 'orelse', 'finalbody'):
+            b = getattr(node, f, None)
+            if isinstance(b, list) and b and isinstance(b[0], ast.stmt):
+                yield b
+                for st in b:
+                    for x in blocks(st):
+                        yield x
+    found = None
+    for b in blocks(loop):
+        for i, st in enumerate(b):
+            if isinstance(st, ast.If) and isinstance(st.test, ast.Name) and st.test.id == 'embed_initial':
+                found = (b, i, st)
+                break
+        if found:
+            break
+    if found is None:
+        raise ExtractError('the loop over new_initial has no `if embed_initial:` test')
+    b, i, test = found
+
+    def assigns_flag(st):
+        if not isinstance(st, ast.Assign):
+            return False
+        for t in st.targets:
+            names = [t] if isinstance(t, ast.Name) else (t.elts if isinstance(t, ast.Tuple) else [])
+            if any(isinstance(x, ast.Name) and x.id == 'embed_initial' for x in names):
+                return True
+        return False
+    flag_per_item = any(assigns_flag(st) for st in b[:i])
+    embed_coalesces = any(isinstance(c, ast.Constant) and isinstance(c.value, str) and 'coalesce(' in c.value
+                          for st in test.body for c in ast.walk(st))
+    return {'flag_per_item': flag_per_item, 'embed_coalesces': embed_coalesces}
+
+
 def extract_optimizer_copies(repo):
     """AppMutator._preprocess_mutations rebinds `mutations` to a deep copy before anything else uses it"""
     tree = ast.parse(_src(repo, 'django_evolution/mutators/app_mutator.py'))
@@ -658,6 +709,13 @@ def regenerate(repo, outdir):
     parts.append('')
     parts.append('/-- how change_meta_unique_together / change_meta_index_together iterate over their entries -/')
     parts.append('def togetherIteration : String := ' + lean_str(titer))
+    cc = extract_copy_cfg(repo)
+    flags['copy_cfg'] = cc
+    parts.append('')
+    parts.append('/-- SQLite rebuild, loop over `new_initial`: embedded SQL text is coalesced on existing columns / the '
+                 'embed-or-bind decision is taken per initial value -/')
+    parts.append('def copyEmbedCoalesces : Bool := ' + ('true' if cc['embed_coalesces'] else 'false'))
+    parts.append('def copyFlagPerItem : Bool := ' + ('true' if cc['flag_per_item'] else 'false'))
     fkattr = extract_fk_reference_attr(repo)
     flags['fk_reference_attr'] = fkattr
     parts.append('')
